@@ -730,10 +730,10 @@ def kind_constraints(ln, cs, kind, sp, name, u):
         for k in range(n):
             out.append(z3.Implies(z3.And(k < colon), _in_ranges(cs[k], _SCHEME)))
             out.append(z3.Implies(k == colon, cs[k] == 58))
-            # IRI characters: printable ASCII without space and without < > " { } | ^ ` \\
+            # IRI characters: printable ASCII without space and without < > " { } | ^ ` \\ [ ]
             out.append(z3.Implies(z3.And(k > colon, k < ln), z3.And(cs[k] >= 33, cs[k] <= 126, cs[k] != 60, cs[k] != 62,
                                                                     cs[k] != 34, cs[k] != 123, cs[k] != 125, cs[k] != 124,
-                                                                    cs[k] != 94, cs[k] != 96, cs[k] != 92)))
+                                                                    cs[k] != 94, cs[k] != 96, cs[k] != 92, cs[k] != 91, cs[k] != 93)))
     elif kind == "name":  # [A-Za-z][A-Za-z0-9_]*
         if n:
             out.append(z3.Implies(ln > 0, _in_ranges(cs[0], _ALPHA)))
